@@ -1,5 +1,797 @@
-use crate::Ctx;
+//! C20 - the multi-peer endpoint keeps peers isolated.
+//!
+//! Generator: histories over one `Net<u8>` (accepting or not) and up to 4 remote addresses. Remote
+//! datagrams come from per-address remote connections (realistic handshakes, data, acks, closes),
+//! or are garbage, or belong to another address.
+//! Oracle: differential against independent single connections: for every address a reference
+//! `Connection` is fed exactly the projected sub-history; events, outgoing datagrams (and their
+//! destination address) and deadlines must agree. Plus a model of the peer table.
 
-pub fn run(_ctx: &Ctx) {
-    // not built yet
+use crate::netsim::{SimCb, CALL_FUEL};
+use crate::util::{hex, Warnings};
+use crate::{burn, guard, pick, set_fuel, unlimited_fuel, Ctx, Outcome, PResult};
+use libtw2_net::connection as c6;
+use libtw2_net::net::{Callback, Chunk, ChunkOrEvent, Net, PeerId};
+use libtw2_net::{Timeout, Timestamp};
+use proptest::prelude::*;
+use serde::{Deserialize, Serialize};
+use std::collections::BTreeMap;
+use std::convert::Infallible;
+
+pub const KEY_REJECT: &str = "reject-always-panics";
+const NADDR: usize = 4;
+const CONNECT_PACKET: &[u8; 12] = b"\x10\x00\x00\x01TKEN\xff\xff\xff\xff";
+const CONNECT_PACKET_NO_TOKEN: &[u8; 4] = b"\x10\x00\x00\x01";
+
+struct NetCb {
+    now_us: u64,
+    out: Vec<(u8, Vec<u8>)>,
+    streams: Vec<SimCb>,
+    current: usize,
+}
+
+impl Callback<u8> for NetCb {
+    type Error = Infallible;
+    fn secure_random(&mut self, buffer: &mut [u8]) {
+        let cur = self.current;
+        c6::Callback::secure_random(&mut self.streams[cur], buffer)
+    }
+    fn send(&mut self, addr: u8, data: &[u8]) -> Result<(), Infallible> {
+        burn();
+        self.out.push((addr, data.to_vec()));
+        Ok(())
+    }
+    fn time(&mut self) -> Timestamp {
+        burn();
+        Timestamp::from_usecs_since_epoch(self.now_us)
+    }
+}
+
+#[derive(Clone, Debug, PartialEq, Eq, Hash, Serialize, Deserialize)]
+pub enum Op {
+    // remote side
+    RemoteConnect { a: u8, vanilla: bool },
+    RemoteSend { a: u8, vital: bool, len: u16 },
+    RemoteFlush { a: u8 },
+    RemoteTick { a: u8 },
+    RemoteDisconnect { a: u8 },
+    DeliverToNet { a: u8, k: u16 },
+    DropToNet { a: u8, k: u16 },
+    DeliverToRemote { a: u8, k: u16 },
+    /// a datagram in flight from `from` arrives with source address `a`
+    CrossFeed { a: u8, from: u8, k: u16 },
+    Garbage { a: u8, data: Vec<u8> },
+    // local application
+    NetConnect { a: u8 },
+    Accept { p: u16 },
+    Reject { p: u16, reason_len: u8 },
+    Ignore { p: u16 },
+    NetSend { p: u16, vital: bool, len: u16 },
+    NetFlush { p: u16 },
+    NetDisconnect { p: u16, reason_len: u8 },
+    NetSendConnless { a: u8, len: u16 },
+    NetTick,
+    Advance { dt: u8 },
+}
+
+#[derive(Clone, Debug, Hash, Serialize, Deserialize)]
+pub struct Case {
+    pub server: bool,
+    pub ops: Vec<Op>,
+}
+
+const DT_US: [u64; 7] = [0, 1_000, 499_000, 500_000, 1_000_000, 1_001_000, 5_000_000];
+
+#[derive(Clone, Debug, PartialEq)]
+enum NEv {
+    Chunk(u32, bool, Vec<u8>),
+    Connless(u8, Option<u32>, Vec<u8>),
+    Connect(u32),
+    Ready(u32),
+    Disconnect(u32, Vec<u8>),
+}
+
+struct Local {
+    pid: PeerId,
+    conn: c6::Connection,
+    cb: SimCb,
+    pending: bool,
+    token: bool,
+}
+
+struct World {
+    net: Net<u8>,
+    cb: NetCb,
+    now_us: u64,
+    server: bool,
+    /// reference single connections, one per live peer (keyed by address)
+    locals: BTreeMap<u8, Local>,
+    /// remote endpoints (real connections playing the other side)
+    remotes: Vec<Option<(c6::Connection, SimCb, bool)>>,
+    to_net: Vec<Vec<Vec<u8>>>,
+    to_remote: Vec<Vec<Vec<u8>>>,
+    serial: u32,
+    stats: Stats,
+    reject_open: bool,
+}
+
+#[derive(Default)]
+struct Stats {
+    online_addrs: std::collections::BTreeSet<u8>,
+    interleaved: bool,
+    last_data_addr: Option<u8>,
+    closes_remote: u32,
+    closes_local: u32,
+    garbage_unknown: u32,
+    pid_after_removal: u32,
+    removed_addrs: std::collections::BTreeSet<u8>,
+    rejects: u32,
+    ignores: u32,
+    crossfeeds: u32,
+    applied: u32,
+    skipped: u32,
+    skipped_pending_feed: u32,
+}
+
+fn payload(serial: u32, len: usize) -> Vec<u8> {
+    let tag = serial.to_be_bytes();
+    (0..len).map(|i| if i < 4 { tag[i] } else { (i as u8) ^ tag[3] }).collect()
+}
+
+impl World {
+    fn new(server: bool, reject_open: bool) -> World {
+        World {
+            net: if server { Net::server() } else { Net::client() },
+            cb: NetCb { now_us: 1_000_000, out: Vec::new(), streams: (0..NADDR).map(|a| SimCb::new(0x2000 + a as u64)).collect(), current: 0 },
+            now_us: 1_000_000,
+            server,
+            locals: BTreeMap::new(),
+            remotes: (0..NADDR).map(|_| None).collect(),
+            to_net: vec![Vec::new(); NADDR],
+            to_remote: vec![Vec::new(); NADDR],
+            serial: 0,
+            stats: Stats::default(),
+            reject_open,
+        }
+    }
+
+    fn live_pids(&self) -> Vec<(u8, PeerId)> {
+        let mut v: Vec<(u8, PeerId)> = self.locals.iter().map(|(a, l)| (*a, l.pid)).collect();
+        v.sort_by_key(|x| x.1);
+        v
+    }
+
+    fn pick_peer(&self, p: u16) -> Option<u8> {
+        let v = self.live_pids();
+        if v.is_empty() {
+            None
+        } else {
+            Some(v[pick(p, v.len())].0)
+        }
+    }
+
+    /// Run a closure on the Net under fuel/panic capture.
+    fn net_call<R>(&mut self, addr: usize, what: &str, f: impl FnOnce(&mut Net<u8>, &mut NetCb) -> R) -> Result<R, String> {
+        self.cb.now_us = self.now_us;
+        self.cb.current = addr % NADDR;
+        set_fuel(CALL_FUEL);
+        let (net, cb) = (&mut self.net, &mut self.cb);
+        let r = guard(|| f(net, cb));
+        unlimited_fuel();
+        r.map_err(|p| format!("Net::{}: {}", what, p))
+    }
+
+    /// Run a closure on the reference connection of `a`.
+    fn local_call<R>(&mut self, a: u8, what: &str, f: impl FnOnce(&mut c6::Connection, &mut SimCb) -> R) -> Result<R, String> {
+        let now = self.now_us;
+        let l = self.locals.get_mut(&a).expect("reference connection exists");
+        l.cb.now_us = now;
+        set_fuel(CALL_FUEL);
+        let (conn, cb) = (&mut l.conn, &mut l.cb);
+        let r = guard(|| f(conn, cb));
+        unlimited_fuel();
+        r.map_err(|p| format!("reference Connection::{}: {}", what, p))
+    }
+
+    /// After an op concerning address `a` (or all addresses for tick): Net's sends must equal the references'.
+    fn compare_sends(&mut self, what: &str) -> Result<(), String> {
+        let out = std::mem::take(&mut self.cb.out);
+        let mut by_addr: BTreeMap<u8, Vec<Vec<u8>>> = BTreeMap::new();
+        for (a, d) in out {
+            by_addr.entry(a).or_default().push(d);
+        }
+        let mut addrs: Vec<u8> = self.locals.keys().cloned().collect();
+        for a in by_addr.keys() {
+            if !addrs.contains(a) {
+                addrs.push(*a);
+            }
+        }
+        for a in addrs {
+            let got = by_addr.remove(&a).unwrap_or_default();
+            let want = self.locals.get_mut(&a).map(|l| std::mem::take(&mut l.cb.out)).unwrap_or_default();
+            if got != want {
+                return Err(format!(
+                    "{}: datagrams sent to address {} differ from an independent connection fed only that address's traffic:\n net: {:?}\n ref: {:?}",
+                    what,
+                    a,
+                    got.iter().map(|d| hex(&d[..d.len().min(24)])).collect::<Vec<_>>(),
+                    want.iter().map(|d| hex(&d[..d.len().min(24)])).collect::<Vec<_>>()
+                ));
+            }
+            if (a as usize) < NADDR {
+                self.to_remote[a as usize].extend(got);
+            }
+        }
+        Ok(())
+    }
+
+    fn check_deadline(&self) -> Result<(), String> {
+        let want: Timeout = self.locals.values().map(|l| l.conn.needs_tick()).min().unwrap_or_default();
+        let got = self.net.needs_tick();
+        if got != want {
+            return Err(format!("Net::needs_tick() = {:?} but the minimum over its {} live peers is {:?}", got, self.locals.len(), want));
+        }
+        Ok(())
+    }
+
+    fn check_pids(&self) -> Result<(), String> {
+        let v = self.live_pids();
+        for w in v.windows(2) {
+            if w[0].1 == w[1].1 {
+                return Err(format!("two live peers (addresses {} and {}) share peer id {:?}", w[0].0, w[1].0, w[0].1));
+            }
+        }
+        Ok(())
+    }
+
+    fn remove_local(&mut self, a: u8) {
+        self.locals.remove(&a);
+        self.stats.removed_addrs.insert(a);
+    }
+
+    /// Feed a datagram with source address `a` to the Net and to the projected reference.
+    fn feed(&mut self, a: u8, data: &[u8], what: &str) -> Result<(), String> {
+        let known = self.locals.contains_key(&a);
+        if known && self.locals[&a].pending {
+            // The in-repo callers (event-loop, server) decide accept/reject while handling the
+            // Connect event, i.e. before any further datagram of that address is fed; accept()
+            // asserts that. Datagrams arriving in between are treated as delayed (dropped here).
+            self.stats.skipped_pending_feed += 1;
+            return Ok(());
+        }
+        let mut buf = [0u8; 2048];
+        let data_v = data.to_vec();
+        let mut warn = Warnings::new();
+        let evs: Vec<NEv> = {
+            self.cb.now_us = self.now_us;
+            self.cb.current = a as usize % NADDR;
+            set_fuel(CALL_FUEL);
+            let (net, cb) = (&mut self.net, &mut self.cb);
+            let r = guard(|| {
+                let (iter, res) = net.feed(cb, &mut warn, a, &data_v, &mut buf[..]);
+                match res {
+                    Ok(()) => {}
+                    Err(e) => match e {},
+                }
+                let mut v = Vec::new();
+                for e in iter {
+                    burn();
+                    v.push(match e {
+                        ChunkOrEvent::Chunk(Chunk { pid, vital, data }) => NEv::Chunk(pid.0, vital, data.to_vec()),
+                        ChunkOrEvent::Connless(c) => NEv::Connless(c.addr, c.pid.map(|p| p.0), c.data.to_vec()),
+                        ChunkOrEvent::Connect(p) => NEv::Connect(p.0),
+                        ChunkOrEvent::Ready(p) => NEv::Ready(p.0),
+                        ChunkOrEvent::Disconnect(p, r) => NEv::Disconnect(p.0, r.to_vec()),
+                    });
+                }
+                v
+            });
+            unlimited_fuel();
+            r.map_err(|p| format!("Net::feed ({}): {}", what, p))?
+        };
+        if known {
+            let pid = self.locals[&a].pid.0;
+            let ref_evs = self.local_call(a, "feed", |c, cb| {
+                let mut b = [0u8; 2048];
+                let mut w = Warnings::new();
+                let (iter, res) = c.feed(cb, &mut w, &data_v, &mut b[..]);
+                match res {
+                    Ok(()) => {}
+                    Err(e) => match e {},
+                }
+                iter.map(|e| {
+                    burn();
+                    match e {
+                        c6::ReceiveChunk::Connless(d) => NEv::Connless(a, Some(pid), d.to_vec()),
+                        c6::ReceiveChunk::Connected(d, v) => NEv::Chunk(pid, v, d.to_vec()),
+                        c6::ReceiveChunk::Ready => NEv::Ready(pid),
+                        c6::ReceiveChunk::Disconnect(r) => NEv::Disconnect(pid, r.to_vec()),
+                    }
+                })
+                .collect::<Vec<_>>()
+            })?;
+            if evs != ref_evs {
+                return Err(format!("{}: events for address {} (pid {}) differ from the independent connection: net {:?} vs ref {:?}", what, a, pid, evs, ref_evs));
+            }
+            if evs.iter().any(|e| matches!(e, NEv::Chunk(..))) {
+                if let Some(prev) = self.stats.last_data_addr {
+                    if prev != a {
+                        self.stats.interleaved = true;
+                    }
+                }
+                self.stats.last_data_addr = Some(a);
+            }
+            if self.locals[&a].conn.verif_summary().0 == "Online" {
+                self.stats.online_addrs.insert(a);
+            }
+            self.compare_sends(what)?;
+            if evs.iter().any(|e| matches!(e, NEv::Disconnect(..))) {
+                self.stats.closes_remote += 1;
+                self.remove_local(a);
+            }
+        } else {
+            // unknown address: a pending peer iff it is a connect request on an accepting endpoint
+            let is_connect = data == &CONNECT_PACKET[..] || is_connect_packet(data);
+            let expect_peer = self.server && is_connect;
+            let connects: Vec<u32> = evs.iter().filter_map(|e| if let NEv::Connect(p) = e { Some(*p) } else { None }).collect();
+            if expect_peer {
+                if connects.len() != 1 || evs.len() != 1 {
+                    return Err(format!("{}: connect request from unknown address {} on an accepting endpoint yields {:?} instead of one Connect event", what, a, evs));
+                }
+                let pid = PeerId(connects[0]);
+                if self.locals.values().any(|l| l.pid == pid) {
+                    return Err(format!("new pending peer for address {} got peer id {:?} which a live peer already has", a, pid));
+                }
+                if self.stats.removed_addrs.contains(&a) {
+                    self.stats.pid_after_removal += 1;
+                }
+                let token = has_token_marker(data);
+                self.locals.insert(a, Local { pid, conn: c6::Connection::new(), cb: SimCb::new(0x2000 + (a as u64 % NADDR as u64)), pending: true, token });
+                // keep the per-address random stream in step with the Net's
+                let st = self.cb.streams[a as usize % NADDR].clone();
+                self.locals.get_mut(&a).unwrap().cb.rnd_state = st.rnd_state;
+                self.locals.get_mut(&a).unwrap().cb.script = st.script;
+            } else {
+                if !connects.is_empty() {
+                    return Err(format!("{}: datagram [{}] from unknown address {} created a peer (accepting endpoint: {})", what, hex(&data[..data.len().min(24)]), a, self.server));
+                }
+                for e in &evs {
+                    match e {
+                        NEv::Connless(addr, None, _) if *addr == a => {}
+                        other => return Err(format!("{}: datagram from unknown address {} produced event {:?}", what, a, other)),
+                    }
+                }
+                self.stats.garbage_unknown += 1;
+            }
+            self.compare_sends(what)?;
+        }
+        Ok(())
+    }
+
+    fn remote_call(&mut self, a: usize, f: impl FnOnce(&mut c6::Connection, &mut SimCb)) {
+        let now = self.now_us;
+        if let Some((conn, cb, vanilla)) = self.remotes[a].as_mut() {
+            cb.now_us = now;
+            set_fuel(CALL_FUEL);
+            let _ = guard(|| f(conn, cb));
+            unlimited_fuel();
+            let vanilla = *vanilla;
+            for mut d in std::mem::take(&mut cb.out) {
+                if vanilla && d == CONNECT_PACKET {
+                    d = CONNECT_PACKET_NO_TOKEN.to_vec();
+                }
+                self.to_net[a].push(d);
+            }
+        }
+    }
+
+    fn step(&mut self, op: &Op) -> Result<bool, String> {
+        let applied = match op {
+            Op::RemoteConnect { a, vanilla } => {
+                let a = *a as usize % NADDR;
+                if self.remotes[a].is_some() && self.remotes[a].as_ref().unwrap().0.verif_summary().0 != "Disconnected" {
+                    false
+                } else {
+                    self.remotes[a] = Some((c6::Connection::new(), SimCb::new(0x7000 + a as u64), *vanilla));
+                    self.to_net[a].clear();
+                    self.remote_call(a, |c, cb| {
+                        let _ = c.connect(cb);
+                    });
+                    true
+                }
+            }
+            Op::RemoteSend { a, vital, len } => {
+                let a = *a as usize % NADDR;
+                let online = self.remotes[a].as_ref().map(|r| r.0.verif_summary().0 == "Online").unwrap_or(false);
+                if !online {
+                    false
+                } else {
+                    self.serial += 1;
+                    let p = payload(self.serial, (*len as usize).min(900));
+                    let vital = *vital;
+                    self.remote_call(a, |c, cb| {
+                        let _ = c.send(cb, &p, vital);
+                    });
+                    true
+                }
+            }
+            Op::RemoteFlush { a } => {
+                let a = *a as usize % NADDR;
+                let online = self.remotes[a].as_ref().map(|r| r.0.verif_summary().0 == "Online").unwrap_or(false);
+                if online {
+                    self.remote_call(a, |c, cb| {
+                        let _ = c.flush(cb);
+                    });
+                }
+                online
+            }
+            Op::RemoteTick { a } => {
+                let a = *a as usize % NADDR;
+                let some = self.remotes[a].is_some();
+                self.remote_call(a, |c, cb| {
+                    let _ = c.tick(cb);
+                });
+                some
+            }
+            Op::RemoteDisconnect { a } => {
+                let a = *a as usize % NADDR;
+                let st = self.remotes[a].as_ref().map(|r| r.0.verif_summary().0);
+                if matches!(st, Some("Online") | Some("Connecting") | Some("Pending")) {
+                    self.remote_call(a, |c, cb| {
+                        let _ = c.disconnect(cb, b"bye");
+                    });
+                    true
+                } else {
+                    false
+                }
+            }
+            Op::DeliverToNet { a, k } => {
+                let a = *a as usize % NADDR;
+                if self.to_net[a].is_empty() {
+                    false
+                } else {
+                    let k = pick(*k, self.to_net[a].len());
+                    let d = self.to_net[a].remove(k);
+                    self.feed(a as u8, &d, "deliver")?;
+                    true
+                }
+            }
+            Op::DropToNet { a, k } => {
+                let a = *a as usize % NADDR;
+                if self.to_net[a].is_empty() {
+                    false
+                } else {
+                    let k = pick(*k, self.to_net[a].len());
+                    self.to_net[a].remove(k);
+                    true
+                }
+            }
+            Op::DeliverToRemote { a, k } => {
+                let a = *a as usize % NADDR;
+                if self.to_remote[a].is_empty() || self.remotes[a].is_none() {
+                    false
+                } else {
+                    let k = pick(*k, self.to_remote[a].len());
+                    let d = self.to_remote[a].remove(k);
+                    self.remote_call(a, |c, cb| {
+                        let mut b = [0u8; 2048];
+                        let mut w = Warnings::new();
+                        let (iter, _) = c.feed(cb, &mut w, &d, &mut b[..]);
+                        for _ in iter {
+                            burn();
+                        }
+                    });
+                    true
+                }
+            }
+            Op::CrossFeed { a, from, k } => {
+                let a = *a as usize % NADDR;
+                let from = *from as usize % NADDR;
+                if a == from || self.to_net[from].is_empty() {
+                    false
+                } else {
+                    let k = pick(*k, self.to_net[from].len());
+                    let d = self.to_net[from][k].clone();
+                    self.stats.crossfeeds += 1;
+                    self.feed(a as u8, &d, "cross-feed")?;
+                    true
+                }
+            }
+            Op::Garbage { a, data } => {
+                let a = *a as usize % NADDR;
+                self.feed(a as u8, data, "garbage")?;
+                true
+            }
+            Op::NetConnect { a } => {
+                let a = *a % NADDR as u8;
+                if self.locals.contains_key(&a) {
+                    false
+                } else {
+                    let pid = self.net_call(a as usize, "connect", |n, cb| {
+                        let (pid, r) = n.connect(cb, a);
+                        match r {
+                            Ok(()) => {}
+                            Err(e) => match e {},
+                        }
+                        pid
+                    })?;
+                    if self.locals.values().any(|l| l.pid == pid) {
+                        return Err(format!("Net::connect returned peer id {:?} which a live peer already has", pid));
+                    }
+                    if self.stats.removed_addrs.contains(&a) {
+                        self.stats.pid_after_removal += 1;
+                    }
+                    let mut cb = SimCb::new(0);
+                    cb.rnd_state = self.cb.streams[a as usize].rnd_state;
+                    self.locals.insert(a, Local { pid, conn: c6::Connection::new(), cb, pending: false, token: false });
+                    self.local_call(a, "connect", |c, cb| {
+                        let _ = c.connect(cb);
+                    })?;
+                    self.compare_sends("connect")?;
+                    true
+                }
+            }
+            Op::Accept { p } => match self.pick_peer(*p) {
+                Some(a) if self.locals[&a].pending => {
+                    let pid = self.locals[&a].pid;
+                    self.net_call(a as usize, "accept", |n, cb| match n.accept(cb, pid) {
+                        Ok(()) => {}
+                        Err(e) => match e {},
+                    })?;
+                    let token = self.locals[&a].token;
+                    self.local_call(a, "feed(connect)", |c, cb| {
+                        let mut b = [0u8; 2048];
+                        let pkt: &[u8] = if token { CONNECT_PACKET } else { CONNECT_PACKET_NO_TOKEN };
+                        let (iter, _) = c.feed(cb, &mut Warnings::new(), pkt, &mut b[..]);
+                        for _ in iter {}
+                    })?;
+                    self.locals.get_mut(&a).unwrap().pending = false;
+                    self.compare_sends("accept")?;
+                    true
+                }
+                _ => false,
+            },
+            Op::Reject { p, reason_len } => match self.pick_peer(*p) {
+                Some(a) if self.locals[&a].pending => {
+                    if self.reject_open {
+                        return Ok(false);
+                    }
+                    let pid = self.locals[&a].pid;
+                    let reason: Vec<u8> = (0..*reason_len.min(&127)).map(|i| b'a' + i % 26).collect();
+                    self.net_call(a as usize, "reject", |n, cb| match n.reject(cb, pid, &reason) {
+                        Ok(()) => {}
+                        Err(e) => match e {},
+                    })?;
+                    self.local_call(a, "disconnect", |c, cb| {
+                        let _ = c.disconnect(cb, &reason);
+                    })?;
+                    self.stats.rejects += 1;
+                    self.compare_sends("reject")?;
+                    self.remove_local(a);
+                    true
+                }
+                _ => false,
+            },
+            Op::Ignore { p } => match self.pick_peer(*p) {
+                Some(a) => {
+                    let pid = self.locals[&a].pid;
+                    self.net_call(a as usize, "ignore", |n, _| n.ignore(pid))?;
+                    self.stats.ignores += 1;
+                    self.remove_local(a);
+                    self.compare_sends("ignore")?;
+                    true
+                }
+                None => false,
+            },
+            Op::NetSend { p, vital, len } => match self.pick_peer(*p) {
+                Some(a) if self.locals[&a].conn.verif_summary().0 == "Online" && self.locals[&a].conn.verif_summary().2 < 200 => {
+                    let pid = self.locals[&a].pid;
+                    self.serial += 1;
+                    let data = payload(self.serial, (*len as usize).min(1023));
+                    let vital = *vital;
+                    let r1 = self.net_call(a as usize, "send", |n, cb| n.send(cb, Chunk { pid, vital, data: &data }).is_ok())?;
+                    let r2 = self.local_call(a, "send", |c, cb| c.send(cb, &data, vital).is_ok())?;
+                    if r1 != r2 {
+                        return Err(format!("Net::send result {} differs from the independent connection's {}", r1, r2));
+                    }
+                    self.compare_sends("send")?;
+                    true
+                }
+                _ => false,
+            },
+            Op::NetFlush { p } => match self.pick_peer(*p) {
+                Some(a) if self.locals[&a].conn.verif_summary().0 == "Online" => {
+                    let pid = self.locals[&a].pid;
+                    self.net_call(a as usize, "flush", |n, cb| {
+                        let _ = n.flush(cb, pid);
+                    })?;
+                    self.local_call(a, "flush", |c, cb| {
+                        let _ = c.flush(cb);
+                    })?;
+                    self.compare_sends("flush")?;
+                    true
+                }
+                _ => false,
+            },
+            Op::NetDisconnect { p, reason_len } => match self.pick_peer(*p) {
+                Some(a) if !self.locals[&a].pending && self.locals[&a].conn.verif_summary().0 != "Disconnected" => {
+                    let pid = self.locals[&a].pid;
+                    let reason: Vec<u8> = (0..*reason_len.min(&127)).map(|i| b'A' + i % 26).collect();
+                    self.net_call(a as usize, "disconnect", |n, cb| {
+                        let _ = n.disconnect(cb, pid, &reason);
+                    })?;
+                    self.local_call(a, "disconnect", |c, cb| {
+                        let _ = c.disconnect(cb, &reason);
+                    })?;
+                    self.stats.closes_local += 1;
+                    self.compare_sends("disconnect")?;
+                    self.remove_local(a);
+                    true
+                }
+                _ => false,
+            },
+            Op::NetSendConnless { a, len } => {
+                let a = *a % NADDR as u8;
+                self.serial += 1;
+                let data = payload(self.serial, (*len as usize).min(1500));
+                let ok = self.net_call(a as usize, "send_connless", |n, cb| n.send_connless(cb, a, &data).is_ok())?;
+                let out = std::mem::take(&mut self.cb.out);
+                if ok {
+                    if out.len() != 1 || out[0].0 != a {
+                        return Err(format!("Net::send_connless to address {} sent {:?}", a, out.iter().map(|(x, d)| (*x, d.len())).collect::<Vec<_>>()));
+                    }
+                } else if !out.is_empty() {
+                    return Err("Net::send_connless reported an error but sent something".to_string());
+                }
+                true
+            }
+            Op::NetTick => {
+                self.net_call(0, "tick", |n, cb| {
+                    for e in n.tick(cb) {
+                        match e {}
+                    }
+                })?;
+                let addrs: Vec<u8> = self.locals.keys().cloned().collect();
+                for a in addrs {
+                    self.local_call(a, "tick", |c, cb| {
+                        let _ = c.tick(cb);
+                    })?;
+                }
+                self.compare_sends("tick")?;
+                true
+            }
+            Op::Advance { dt } => {
+                self.now_us += DT_US[*dt as usize % DT_US.len()];
+                true
+            }
+        };
+        self.check_deadline()?;
+        self.check_pids()?;
+        Ok(applied)
+    }
+}
+
+fn is_connect_packet(d: &[u8]) -> bool {
+    // what the Net itself treats as a connect request from an unknown address
+    let mut buf = [0u8; 2048];
+    let mut w = Warnings::new();
+    use libtw2_net::protocol::*;
+    matches!(
+        Packet::read(&mut w, d, None, &mut buf[..]),
+        Ok(Packet::Connected(ConnectedPacket { type_: ConnectedPacketType::Control(ControlPacket::Connect), .. }))
+    )
+}
+
+fn has_token_marker(d: &[u8]) -> bool {
+    let mut buf = [0u8; 2048];
+    let mut w = Warnings::new();
+    use libtw2_net::protocol::*;
+    matches!(Packet::read(&mut w, d, None, &mut buf[..]), Ok(Packet::Connected(ConnectedPacket { token: Some(_), .. })))
+}
+
+fn op_strategy() -> BoxedStrategy<Op> {
+    let a = 0u8..NADDR as u8;
+    let k = prop_oneof![3 => Just(0u16), 1 => any::<u16>()];
+    prop_oneof![
+        4 => (a.clone(), prop::bool::weighted(0.3)).prop_map(|(a, vanilla)| Op::RemoteConnect { a, vanilla }),
+        6 => (a.clone(), prop::bool::weighted(0.7), 0u16..200).prop_map(|(a, vital, len)| Op::RemoteSend { a, vital, len }),
+        4 => a.clone().prop_map(|a| Op::RemoteFlush { a }),
+        3 => a.clone().prop_map(|a| Op::RemoteTick { a }),
+        1 => a.clone().prop_map(|a| Op::RemoteDisconnect { a }),
+        12 => (a.clone(), k.clone()).prop_map(|(a, k)| Op::DeliverToNet { a, k }),
+        1 => (a.clone(), any::<u16>()).prop_map(|(a, k)| Op::DropToNet { a, k }),
+        10 => (a.clone(), k.clone()).prop_map(|(a, k)| Op::DeliverToRemote { a, k }),
+        2 => (a.clone(), a.clone(), any::<u16>()).prop_map(|(a, from, k)| Op::CrossFeed { a, from, k }),
+        2 => (a.clone(), prop_oneof![
+            proptest::collection::vec(any::<u8>(), 0..20),
+            Just(CONNECT_PACKET.to_vec()),
+            Just(CONNECT_PACKET_NO_TOKEN.to_vec()),
+            Just(b"\x10\x00\x00\x04bye\x00".to_vec()),
+            Just(b"\xff\xff\xff\xff\xff\xffinfo".to_vec()),
+        ]).prop_map(|(a, data)| Op::Garbage { a, data }),
+        3 => a.clone().prop_map(|a| Op::NetConnect { a }),
+        6 => any::<u16>().prop_map(|p| Op::Accept { p }),
+        1 => (any::<u16>(), 0u8..=127).prop_map(|(p, reason_len)| Op::Reject { p, reason_len }),
+        1 => any::<u16>().prop_map(|p| Op::Ignore { p }),
+        6 => (any::<u16>(), prop::bool::weighted(0.7), 0u16..200).prop_map(|(p, vital, len)| Op::NetSend { p, vital, len }),
+        4 => any::<u16>().prop_map(|p| Op::NetFlush { p }),
+        1 => (any::<u16>(), 0u8..=127).prop_map(|(p, reason_len)| Op::NetDisconnect { p, reason_len }),
+        1 => (a, 0u16..1500).prop_map(|(a, len)| Op::NetSendConnless { a, len }),
+        4 => Just(Op::NetTick),
+        3 => (0u8..7).prop_map(|dt| Op::Advance { dt }),
+    ]
+    .boxed()
+}
+
+/// a prelude that brings two addresses online on an accepting endpoint
+fn prelude_server() -> Vec<Op> {
+    let mut v = Vec::new();
+    for a in 0..2u8 {
+        v.push(Op::RemoteConnect { a, vanilla: a == 1 });
+        v.push(Op::DeliverToNet { a, k: 0 });
+        v.push(Op::Accept { p: 0xffff });
+        v.push(Op::DeliverToRemote { a, k: 0 });
+        v.push(Op::DeliverToNet { a, k: 0 });
+        v.push(Op::RemoteSend { a, vital: true, len: 10 });
+        v.push(Op::RemoteFlush { a });
+        v.push(Op::DeliverToNet { a, k: 0 });
+    }
+    v
+}
+
+fn case_strategy(max_ops: usize) -> impl Strategy<Value = Case> {
+    (prop::bool::weighted(0.75), prop::bool::weighted(0.6), proptest::collection::vec(op_strategy(), 0..max_ops)).prop_map(|(server, prelude, mut ops)| {
+        let mut v = if server && prelude { prelude_server() } else { Vec::new() };
+        v.append(&mut ops);
+        Case { server, ops: v }
+    })
+}
+
+fn run_case(c: &Case, reject_open: bool) -> PResult {
+    let mut w = World::new(c.server, reject_open);
+    for (i, op) in c.ops.iter().enumerate() {
+        match w.step(op) {
+            Ok(true) => w.stats.applied += 1,
+            Ok(false) => w.stats.skipped += 1,
+            Err(msg) => return Err(format!("op #{} {:?}: {}", i, op, msg)),
+        }
+    }
+    let s = &w.stats;
+    Ok(Outcome::nt(s.online_addrs.len() >= 2 && s.interleaved)
+        .class_if(c.server, "accepting_endpoint")
+        .class_if(!c.server, "non_accepting_endpoint")
+        .class_if(s.online_addrs.len() >= 2, "two_plus_addresses_online")
+        .class_if(s.online_addrs.len() >= 3, "three_plus_addresses_online")
+        .class_if(s.closes_remote > 0, "closed_by_remote")
+        .class_if(s.closes_local > 0, "closed_locally")
+        .class_if(s.garbage_unknown > 0, "datagram_from_unknown_address")
+        .class_if(s.pid_after_removal > 0, "peer_again_after_removal")
+        .class_if(s.rejects > 0, "reject")
+        .class_if(s.ignores > 0, "ignore")
+        .class_if(s.crossfeeds > 0, "cross_fed_datagram")
+        .class_if(s.skipped_pending_feed > 0, "datagram_for_undecided_peer_dropped"))
+}
+
+pub fn run(ctx: &Ctx) {
+    ctx.set_rule(
+        "histories over one Net<u8> (accepting 75% / non-accepting) and 4 remote addresses: remote connections produce realistic handshakes, \
+         chunks, acks and closes (token and vanilla clients); datagrams are delivered, dropped, delivered under another source address, or are \
+         garbage; application calls connect/accept/reject/ignore/send/flush/disconnect/send_connless/tick with peers drawn from the live set; \
+         non-trivial = at least two addresses reached Online and chunk traffic of different addresses interleaved; distinct by case hash",
+    );
+    ctx.assume("reference = independent libtw2 Connection per address fed the projected sub-history with the same clock and per-address random stream (differential against the single-connection layer, whose own properties are C01-C04)");
+    ctx.assume("caller preconditions respected: pids from the live set, accept/reject only on pending peers, send/flush only when online, connect only to an address without a live peer");
+    let reject_open = ctx.known_open(KEY_REJECT);
+    if reject_open {
+        ctx.add_excluded_known(1);
+    }
+    ctx.probe(KEY_REJECT, || {
+        let c = Case {
+            server: true,
+            ops: vec![Op::RemoteConnect { a: 0, vanilla: false }, Op::DeliverToNet { a: 0, k: 0 }, Op::Reject { p: 0, reason_len: 4 }, Op::DeliverToRemote { a: 0, k: 0 }],
+        };
+        run_case(&c, false).map(|_| ())
+    });
+    let max_ops = ctx.n(250, 1200) as usize;
+    ctx.prop("histories", ctx.n(60_000, 1_500_000), || case_strategy(max_ops), |c: &Case| run_case(c, reject_open));
 }
